@@ -832,6 +832,8 @@ def expand_block(b, overlay, unit_breaks, backend="verus"):
         for d in b.subs:
             if d.kind == "break":
                 _collect_break(d, ex, unit_breaks, relfile)
+            elif d.kind == "harmless":
+                _collect_break(d, ex, unit_breaks, relfile, harmless=True)
         for d in b.subs:
             if d.kind in ("rw", "rwlit"):
                 text = apply_rw(text, d, ex)
